@@ -342,7 +342,8 @@ def judge_cases(lang, cases_path, ncases, seed, work, tag, extra_env=None):
     return cases, obs, bad, int(mm.group(2))
 
 
-CLASSES = [("sizeof", "class:sizeof-operand-without-parentheses"), ("notcast", "class:cast-parentheses-removed-after-not")]
+CLASSES = [("sizeof", "class:sizeof-operand-without-parentheses"), ("notcast", "class:cast-parentheses-removed-after-not"),
+           ("angle", "class:less-than-greater-than-taken-for-template-brackets")]
 
 
 def classify(lang, reduced, seed, work):
